@@ -1,6 +1,6 @@
 #!/bin/bash
-# usage: seed_take.sh <P>  -- copy a sub-agent's deliverables from /tmp/seedout/<P> to /verif/seeded/<P>-a, confirm them, remove its worktree
-P=$1; SID=$P-a
+# usage: seed_take.sh <P> [seed id]  -- copy a sub-agent's deliverables from /tmp/seedout/<P> to /verif/seeded/<P>-a, confirm them, remove its worktree
+P=$1; SID=${2:-$P-a}
 mkdir -p /verif/seeded/$SID
 cp /tmp/seedout/$P/patch.diff /tmp/seedout/$P/demo.py /tmp/seedout/$P/meta.json /verif/seeded/$SID/ || exit 2
 /verif/tools/seed_confirm.sh $SID | tee /verif/seeded/$SID/confirm.txt
